@@ -454,5 +454,34 @@ pub fn run(args: &Args) -> i32 {
             }
         }
     });
+    // hook-free variant: one avalanche on wire w, pad charge placed in column c' in {c-1, c, c+1}: an
+    // avalanche may only come out when c' is the column over the wire (public API only)
+    rep.run("wire-pad-association-through-avalanches", 256 * 3, 300, true, "all 256 wires x pad cluster placed in the geometric column of the wire and its two neighbours: MainEvent::try_from_banks + avalanches() (simulation run) yields the avalanche only for the geometric column", |idx, loc| {
+        use crate::refmodel::sim::*;
+        let w = (idx / 3) as usize;
+        let m = maps();
+        // geometric column from azimuths only
+        let phi_w = TpcWirePosition::try_from(w).unwrap().phi();
+        let col = (0..32).min_by(|a, b| {
+            let d = |c: usize| wrap_pi(phi_w - TpcPadColumn::try_from(c).unwrap().phi()).abs();
+            d(*a).partial_cmp(&d(*b)).unwrap()
+        }).unwrap();
+        let placed = (col + 32 + (idx % 3) as usize - 1) % 32;
+        let mut sig = signals(m, 0.004, &[Hit { wire: w, bin: 30, z: 0.1013, amp: 120.0 }]);
+        let pads: Vec<((usize, usize), Vec<f64>)> = sig.pads.iter().map(|((_, r), s)| ((placed, *r), s.clone())).collect();
+        sig.pads = pads.into_iter().collect();
+        let banks = banks(m, &sig, 1);
+        let r = guard(|| alpha_g_physics::MainEvent::try_from_banks(SIM_RUN, banks.iter().map(|(n, d)| (n.as_str(), &d[..]))).map(|e| e.avalanches().len()).map_err(|e| e.to_string()));
+        loc.note(idx | 1 << 42, true, "evaluated");
+        match r {
+            Err(p) => loc.violation(format!("panic:event:{}", panic_site(&p)), json!({"wire": w, "panic": p})),
+            Ok(Err(e)) => loc.violation("geometry:event-rejected", json!({"wire": w, "error": e})),
+            Ok(Ok(n)) => {
+                if (placed == col) != (n > 0) {
+                    loc.violation("geometry:wire-matched-with-wrong-pad-column", json!({"wire": w, "geometric_column": col, "pads_placed_in_column": placed, "avalanches": n}));
+                }
+            }
+        }
+    });
     rep.finish()
 }
